@@ -932,8 +932,17 @@ result_t ValueListDataField::writeSymbols(size_t offset, istringstream* input,
   char* strEnd = nullptr;  // fall back to raw value in input
   unsigned int value;
   unsigned long longValue = strtoul(str, &strEnd, 10);
-  if (strEnd == nullptr || strEnd == str || (*strEnd != 0 && *strEnd != '.') || longValue > 0xffffffffUL) {
+  if (strEnd == nullptr || strEnd == str || (*strEnd != 0 && *strEnd != '.') || longValue > 0xffffffffUL
+  || (longValue != 0 && str[strspn(str, " \t")] == '-')) {  // strtoul negates modulo 2^64
     return RESULT_ERR_INVALID_NUM;  // invalid value
+  }
+  if (*strEnd == '.') {  // a fraction is ignored, but only a fraction
+    do {
+      strEnd++;
+    } while (*strEnd >= '0' && *strEnd <= '9');
+    if (*strEnd != 0) {
+      return RESULT_ERR_INVALID_NUM;  // invalid value
+    }
   }
   value = (unsigned int)longValue;
   if (m_values.find(value) != m_values.end()) {
